@@ -31,8 +31,9 @@ class C08(Prop):
         'inputs on which strict parsing raises a diagnostic are outside the '
         'property (counted)',
     )
-    probes = ('buf', 'tok', 'read')
-    probed_every = 0
+    probes = ('tok', 'read', 'reach')
+    probed_every = 12
+    reach_required = ['reader.read_spacer', 'reader.read_arg_required', 'reader.read_arg_optional', 'reader.read_env', 'tokens.tokenize_string']
     min_nontrivial = 2000
     budget_s = {'quick': 240, 'thorough': 3600}
     exhaustive = {'quick': 'all strings of <= 2 tokens over the 64-token alphabet (inside the domain)',
